@@ -26,11 +26,16 @@ mpf = hp.mpf
 
 # --- unit tables (exact factors to SI) ------------------------------------------------
 TIME = dict(hp.TIME)
-LENGTH = dict(hp.LENGTH)
+LENGTH = {**hp.LENGTH, 'pm': Fraction(1, 10**12)}
 ENERGY_UNITS = ('ueV', 'meV', 'eV', 'J')
+ENERGY_UNITS_WIDE = ('ueV', 'meV', 'eV', 'keV', 'J')
+ENERGY_EV = {**{k: v for k, v in hp.ENERGY_EV.items() if v is not None}, 'keV': Fraction(1000)}  # eV per unit; J handled apart
 ANGLE_UNITS = ('rad', 'deg')
 # inverse length: factor to 1/m
-INV_LENGTH = {'1/angstrom': Fraction(10**10), '1/nm': Fraction(10**9), '1/m': Fraction(1), '1/mm': Fraction(10**3), '1/km': Fraction(1, 10**3)}
+INV_LENGTH = {
+    '1/angstrom': Fraction(10**10), '1/nm': Fraction(10**9), '1/m': Fraction(1), '1/mm': Fraction(10**3), '1/km': Fraction(1, 10**3),
+    '1/um': Fraction(10**6), '1/pm': Fraction(10**12), '1/cm': Fraction(10**2),
+}
 # acceleration: factor to m/s^2
 ACCEL = {'m/s^2': Fraction(1), 'mm/s^2': Fraction(1, 10**3), 'km/s^2': Fraction(10**3), 'm/ms^2': Fraction(10**6), 'cm/s^2': Fraction(1, 10**2)}
 
@@ -45,7 +50,7 @@ def to_si(kind: str, value, unit: str):
     if kind == 'length':
         return hp.F(value) * hp.F(LENGTH[unit])
     if kind == 'energy':
-        return hp.energy_si(value, unit)
+        return hp.F(value) if unit == 'J' else hp.F(value) * hp.F(ENERGY_EV[unit]) * hp.EV
     if kind == 'angle':
         return hp.angle_rad(value, unit)
     if kind == 'inv_length':
